@@ -696,3 +696,78 @@ Definition check_jcase (c : jcase) : bool :=
 Inductive c04case := XCase (c : xcase) | JCase (c : jcase).
 Definition check_case (c : c04case) : bool :=
   match c with XCase c => check_xcase c | JCase c => check_jcase c end.
+
+(* ---- C17: documents that repeat a record under fixed ancestors --------------------------------- *)
+(* <a1 ..><a2 ..> ... records ... </a2></a1>: ancestors with attributes only *)
+Definition xanc := (bytes * fspec * list (bytes * fspec * bytes))%type.
+Fixpoint xnest (anc : list xanc) (inner : list xnode) : list xnode :=
+  match anc with
+  | [] => inner
+  | (nm, fs, attrs) :: r => [XE nm fs attrs (xnest r inner)]
+  end.
+Definition xanc_chain (anc : list xanc) : list name :=
+  map (fun a => let '(nm, fs, _) := a in (fs_prefix fs, nm)) anc.
+Definition xanc_size (anc : list xanc) : nat :=
+  fold_right (fun a n => let '(_, _, attrs) := a in 1 + 2 * List.length attrs + n) 0 anc.
+
+(* ---- C17: the record-at-a-time readers --------------------------------------------------------- *)
+(* flatfile/hierarchyReader.go (csv2, fixedlength2), edi/reader.go, fixedlength/reader.go and
+   csv/reader.go as far as retention goes: a record node is created, attached as last child of
+   the node its declaration hangs under (old csv: not attached, every record is its own root),
+   checked against the target xpath; a rejected one is removed at once, an accepted one becomes
+   r.target, is returned, and is removed by Release or by the next Read.  Records of
+   declarations that are not targets stay attached ([FKeep]).  [above] counts the nodes of the
+   tree outside this child list (the parent and everything else).  Records are abstract here:
+   [R] with a node count. *)
+Section Flat.
+  Variable R : Type.
+  Variable rsize : R -> nat.
+  Variable standalone : bool.   (* old csv reader: recordToNode builds a fresh root per record *)
+  Variable above : nat.
+
+  Inductive frec := FTarget (x : R) (pass : bool) | FKeep (x : R).
+  Record fstate := mkFS { fl_kids : list R; fl_target : bool }.
+
+  Definition fl_size (l : list R) : nat := fold_right (fun x n => rsize x + n) 0 l.
+
+  (* Read() prologue / Release(r.target) *)
+  Definition flat_prologue (st : fstate) : fstate :=
+    if fl_target st then mkFS (removelast (fl_kids st)) false else st.
+
+  Definition flat_step (st : fstate) (rc : frec) : fstate * option (R * nat) :=
+    match rc with
+    | FKeep x => (mkFS (fl_kids st ++ [x]) false, None)
+    | FTarget x pass =>
+        if standalone then (st, if pass then Some (x, rsize x) else None)
+        else
+          let kids' := fl_kids st ++ [x] in                   (* idr.AddChild(parent, node) *)
+          if pass then (mkFS kids' true, Some (x, above + fl_size kids'))
+          else (mkFS (removelast kids') false, None)          (* RemoveAndReleaseTree(node) *)
+    end.
+
+  Fixpoint flat_run (st : fstate) (recs : list frec) : list (R * nat) :=
+    match recs with
+    | [] => []
+    | rc :: rest =>
+        let '(st1, d) := flat_step (flat_prologue st) rc in
+        match d with Some x => [x] | None => [] end ++ flat_run st1 rest
+    end.
+End Flat.
+
+(* One C17 case of a record-at-a-time reader: record sizes with the filter outcome, the nodes
+   outside the records, and the reachable-tree size the harness measured at every delivery. *)
+Record fcase := mkFCase {
+  fc_standalone : bool;
+  fc_above : nat;
+  fc_recs : list (nat * bool);     (* node count of the record, passes the target filter *)
+  fc_sizes : list nat;             (* measured at each delivery *)
+}.
+Definition check_fcase (c : fcase) : bool :=
+  let recs := map (fun x => FTarget nat (fst x) (snd x)) (fc_recs c) in
+  list_eqb Nat.eqb
+    (map snd (flat_run nat (fun n => n) (fc_standalone c) (fc_above c) (mkFS nat [] false) recs))
+    (fc_sizes c).
+
+Inductive c17case := C17Stream (c : c04case) | C17Flat (c : fcase).
+Definition check_case17 (c : c17case) : bool :=
+  match c with C17Stream c => check_case c | C17Flat c => check_fcase c end.
